@@ -58,8 +58,10 @@ STEM = "rec_g0_t0.imec0"
 
 def gen_plan(seed, tier="quick"):
     r = rng_of(seed)
-    fixture = r.choice(["NP1", "NP1", "NP21", "NP24"])
+    fixture = r.choice(["NP1", "NP1", "NP21", "NP24", "NP24_shank"])     # NP24_shank: the input is one shank file of a split four-shank recording
     nap = r.choice([8, 8, 12, 16, 16, 24, 32, 64, 96]) if r.random() < 0.9 else r.choice([8, 16])
+    if fixture == "NP24_shank":
+        nap = min(nap, 32)
     nbatch = r.choice([2560, 3072, 4096, 4096, 6144, 8192])
     nbatch_default = r.random() < 0.04     # nbatch=None: the default 65536, i.e. one batch for these recordings
     if nbatch_default:
@@ -122,6 +124,9 @@ def gen_plan(seed, tier="quick"):
                    "where": r.choice(["end", "start", "any", "site", "site", "site"])} if r.random() < 0.4 else None),
         "trace": None,
     }
+    if fixture == "NP24_shank":
+        plan.update({"append": False, "rerun": False, "mixed_gains": False,
+                     "prelude": "sibling" if r.random() < 0.6 else None})
     return plan
 
 
@@ -314,34 +319,99 @@ def _install():
         _installed[0] = True
 
 
+def _in_child(fn, timeout=300):
+    """World preparation and oracle computations that go through repository code run in a forked child, so that
+    nothing they touch (per-process caches, module state) is warm in the process that then plays the system."""
+    from sim.proc import run_child
+    msgs, code = run_child(lambda report: report({"r": fn()}), timeout=timeout)
+    for m in msgs:
+        if "r" in m:
+            return m["r"]
+    raise RuntimeError(f"preparation child ended with code {code} without a result")
+
+
+def _compress_input(binf, cd):
+    def go():
+        s2 = spikeglx.Reader(binf)
+        out = s2.compress_file(keep_original=False, chunk_duration=cd, n_threads=1)
+        s2.close()
+        return str(out)
+    return Path(_in_child(go))
+
+
+def _oracle_geometry(binf):
+    """The recording's geometry (x, y, ADC sample shifts, ...) computed in a pristine process."""
+    def go():
+        sr = spikeglx.Reader(binf)
+        h = {k: np.asarray(v).tolist() for k, v in sr.geometry.items()}
+        sr.close()
+        return h
+    return {k: np.asarray(v) for k, v in _in_child(go).items()}
+
+
+SH_STEM = "_spikeglx_ephysData_g0_t0.imec0"
+
+
+def _make_shank_world(plan, base):
+    """NP2.4 four-shank recording (shanks interleaved channel by channel, so that every shank has plan['nap'] channels
+    with its own ADC sampling delays) split by the real converter in a forked process; returns the per-shank folders.
+    The destripe input is one shank's file (its .meta carries the whole probe's channel map plus the shank number)."""
+    nap, ns = plan["nap"], plan["ns"]
+    par = base / "par" / "probe00"
+
+    def go():
+        import neuropixel
+        Op = world.make_data(plan["data_seed"], ns, 4 * nap, saturate=plan["saturate"], amp=plan["amp"], maxint=plan["maxint"], smooth=True)
+        apf = world.write_recording(par, SH_STEM, "NP24", Op, shank_of=[i % 4 for i in range(4 * nap)])
+        conv = neuropixel.NP2Converter(apf, post_check=False, delete_original=False, compress=False)
+        conv.init_params()
+        return int(conv.process())
+
+    st = _in_child(go)
+    if st != 1:
+        raise RuntimeError(f"could not prepare the shank world: converter returned {st}")
+    return [base / "par" / ("probe00" + c) for c in "abcd"]
+
+
 def _run(plan, base):
     _install()
-    fs = world.meta_fs(plan["fixture"])
+    shank_world = plan["fixture"] == "NP24_shank"
+    fs = world.meta_fs("NP24" if shank_world else plan["fixture"])
     nap, ns = plan["nap"], plan["ns"]
-    O = world.make_data(plan["data_seed"], ns, nap, saturate=plan["saturate"], amp=plan["amp"],
-                        maxint=plan["maxint"], smooth=True)
     rec = base / "rec_oracle"
     gains = None
     if plan.get("mixed_gains"):
         gg = rng_of(plan["seed"] ^ 0x6A1)
         gains = [gg.choice([250, 500, 500, 1000]) for _ in range(nap)]
     W_gains = gains
-    world.write_recording(rec, STEM, plan["fixture"], O, ap_gains=gains)            # pristine copy for the oracle
-    binf = world.write_recording(base / "rec", STEM, plan["fixture"], O, ap_gains=gains)
+    sib = None
+    if shank_world:
+        import shutil
+        dirs = _make_shank_world(plan, base)
+        k0 = plan["data_seed"] % 4
+        for dst in (rec, base / "rec"):
+            dst.mkdir()
+            for ext in ("bin", "meta"):
+                shutil.copy(dirs[k0] / f"{SH_STEM}.ap.{ext}", dst / f"{STEM}.ap.{ext}")
+        binf = base / "rec" / f"{STEM}.ap.bin"
+        O = np.fromfile(binf, dtype=np.int16).reshape(ns, nap + 1)      # what the input file holds (the split itself is C03/C04's subject)
+        sib = dirs[(k0 + 1 + (plan["data_seed"] // 4) % 3) % 4]
+    else:
+        O = world.make_data(plan["data_seed"], ns, nap, saturate=plan["saturate"], amp=plan["amp"],
+                            maxint=plan["maxint"], smooth=True)
+        world.write_recording(rec, STEM, plan["fixture"], O, ap_gains=gains)            # pristine copy for the oracle
+        binf = world.write_recording(base / "rec", STEM, plan["fixture"], O, ap_gains=gains)
+    h_oracle = _oracle_geometry(rec / f"{STEM}.ap.bin")
     if plan.get("form") == "cbin":
-        s2 = spikeglx.Reader(binf)
-        binf = s2.compress_file(keep_original=False, chunk_duration=rng_of(plan["seed"]).choice([0.05, 0.13, 1.0]), n_threads=1)
-        s2.close()
-    W = {"root": base, "fs": fs, "ncv": nap, "nc": nap + 1}
+        binf = _compress_input(binf, rng_of(plan["seed"]).choice([0.05, 0.13, 1.0]))
+    W = {"root": base, "fs": fs, "ncv": nap, "nc": nap + 1, "h": h_oracle}
     if _reject(plan):
-        n_in = []
-        recs = [binf]
-        for rb in recs:
-            srx = spikeglx.Reader(rb)
+        def count_inside():
+            srx = spikeglx.Reader(binf)
             lab = voltage.detect_bad_channels_cbin(srx)
             srx.close()
-            n_in.append(int(np.sum(lab != 3)))
-        W["n_inside"] = min(n_in)
+            return int(np.sum(lab != 3))
+        W["n_inside"] = _in_child(count_inside)
     nc_out = nap if plan["drop_sync"] else nap + 1
     if plan.get("count_only"):
         od = base / "out_cnt"
@@ -382,22 +452,26 @@ def _run(plan, base):
             O1 = world.make_data(plan["data_seed"] ^ 0x77, plan["ns_first"], nap, amp=plan["amp"], maxint=plan["maxint"], smooth=True)
             bin1 = world.write_recording(base / "rec1", STEM, plan["fixture"], O1, ap_gains=W_gains)
             if plan.get("form") == "cbin":
-                s2 = spikeglx.Reader(bin1)
-                bin1 = s2.compress_file(keep_original=False, chunk_duration=0.1, n_threads=1)
-                s2.close()
+                bin1 = _compress_input(bin1, 0.1)
         if plan.get("prelude"):
             fxp = plan["prelude"]
-            ns_p = min(12000, 2 * plan["nbatch"] + 100) if not plan.get("nbatch_default") else 3000
-            Op = world.make_data(plan["data_seed"] ^ 0x3131, ns_p, nap, amp=(60 if fxp == "NP1" else 400),
-                                 maxint=(512 if fxp == "NP1" else 8192), smooth=True)
-            binp = world.write_recording(base / "rec_p", STEM, fxp, Op)
+            if fxp == "sibling":
+                # the shank processed just before this one in a loop over the shank folders of one probe
+                binp = sib / f"{SH_STEM}.ap.bin"
+                ns_p, fs_p = ns, fs
+            else:
+                ns_p = min(12000, 2 * plan["nbatch"] + 100) if not plan.get("nbatch_default") else 3000
+                Op = world.make_data(plan["data_seed"] ^ 0x3131, ns_p, nap, amp=(60 if fxp == "NP1" else 400),
+                                     maxint=(512 if fxp == "NP1" else 8192), smooth=True)
+                binp = world.write_recording(base / "rec_p", STEM, fxp, Op)
+                fs_p = world.meta_fs(fxp)
             (base / "out_p").mkdir()
             pp = dict(plan, ns=ns_p, reject=False, append=False, qc_path=False)
             rp = _sim_run(pp, binp, base / "out_p" / "destriped.bin", min(2, plan["nproc"]), False,
-                          {"root": base, "fs": world.meta_fs(fxp), "ncv": nap, "nc": nap + 1}, None)
+                          {"root": base, "fs": fs_p, "ncv": nap, "nc": nap + 1}, None)
             if rp["err"]:
                 raise Violation("C06.a", f"raises:{type(rp['err'][0]).__name__}:prelude", f"earlier call on a {fxp} recording raised: {rp['err'][1][-600:]}")
-            probe("earlier_call_other_probe_type_same_process")
+            probe("earlier_call_on_sibling_shank_same_process" if fxp == "sibling" else "earlier_call_other_probe_type_same_process")
         for tag, nproc, schedule in (("ref", 1, None),
                                      ("sim", plan["nproc"], {"seed": plan["sched_seed"], "p_switch": plan["p_switch"],
                                                              "victim": plan["victim"], "order": plan["order"], "trace": plan.get("trace"), "io_mode": plan.get("io_mode")})):
@@ -630,7 +704,7 @@ def _check_reference(plan, O, out, offset, nc_out, fs, rec, sigbase, W):
     ns, nap, N = plan["ns"], plan["nap"], plan["nbatch"]
     sr = spikeglx.Reader(rec / f"{STEM}.ap.bin")
     try:
-        h = sr.geometry
+        h = W["h"]          # geometry computed in a pristine process (a per-process cache poisoned by an earlier call must not reach the oracle)
         labels = voltage.detect_bad_channels_cbin(sr) if _reject(plan) else None
         taper = np.r_[0, scipy.signal.windows.cosine((T - 1) * 2), 0]
         s2v = sr.sample2volts
